@@ -29,7 +29,7 @@ ASSUMPTIONS = [
 ]
 BUDGET = {"quick": (6, 250), "thorough": (16, 3000)}
 
-POOL = {
+POOL0 = {
     "Select": ["lambda e: e.jets()", "lambda e: e.jets().Select(lambda j: j.pt())", "lambda e: {'a': e.met(), 'b': e.jets()}",
                "lambda e: e.met() + 1", "lambda e: e", "lambda e: (e.met(), e.jets(name='n').Count())", "lambda j: j.pt()", "lambda d: d.b.Count() + d.a",
                "lambda e: e.jets().Where(lambda j: j.pt(2.0) > 1).Count()"],
@@ -45,7 +45,9 @@ def _op(draw):
     on = draw(st.one_of(st.just(-1), st.just(-2), st.integers(0, 30)))
     if k <= 8:
         op = draw(st.sampled_from(["Select", "Select", "Where", "SelectMany"]))
-        return {"op": op, "on": on, "f": draw(st.integers(0, len(POOL[op]) - 1)), "form": draw(st.sampled_from(["string", "ast", "ast", "callable"]))}
+        if draw(st.integers(0, 3)) == 0:
+            on = "roots"  # the same query step applied to every dataset in turn (one analysis, several samples)
+        return {"op": op, "on": on, "f": draw(st.integers(0, len(POOL0[op]) - 1)), "form": draw(st.sampled_from(["string", "ast", "ast", "callable"]))}
     if k == 9:
         return {"op": "MetaData", "on": on, "d": draw(st.sampled_from([{}, {}, {"m": 1}, {"m": "x", "n": [1]}]))}
     if k == 10:
@@ -80,9 +82,16 @@ def run_coro(coro):
 _MODULE_SRC = None
 
 
-def _module_text():
+def _uniq(lam, tag):
+    """rename the lambda parameters with a per-case tag: text-keyed caches inside the library start cold in every case"""
+    import re
+
+    return re.sub(r"\b([ejd])\b", lambda m: f"{m.group(1)}_{tag}", lam)
+
+
+def _module_text(pool):
     lines = []
-    for op, lams in POOL.items():
+    for op, lams in pool.items():
         for i, lam in enumerate(lams):
             lines.append(f"def f_{op}_{i}(s):")
             lines.append(f"    return s.{op}({lam})")
@@ -94,6 +103,10 @@ def check(case) -> Result:
     from func_adl.ast.meta_data import extract_metadata, lookup_query_metadata, remove_empty_metadata
 
     r = Result(sample=case, key=repr(case))
+    import hashlib
+
+    tag = hashlib.sha1(repr(case).encode()).hexdigest()[:6]
+    POOL = {op: [_uniq(lam, tag) for lam in lams] for op, lams in POOL0.items()}
 
     def cb_cls(s: ObjectStream, a: ast.Call):
         return s.MetaData({"cb": "Evt"}), a
@@ -125,7 +138,7 @@ def check(case) -> Result:
 
     shared = {(op, i): ast.parse(lam, mode="eval").body for op, lams in POOL.items() for i, lam in enumerate(lams)}
     shared_pristine = {k: ast.dump(v) for k, v in shared.items()}
-    mod = srcgen.load(_module_text())
+    mod = srcgen.load(_module_text(POOL))
     try:
         streams = []  # [stream, snapshot]
         has_children = set()
@@ -154,7 +167,13 @@ def check(case) -> Result:
             return None
 
         n_value = 0
-        for step, op in enumerate(case["ops"]):
+        ops = []
+        for op in case["ops"]:
+            if op.get("on") == "roots":
+                ops += [dict(op, on=i) for i in range(len(case["roots"]))]
+            else:
+                ops.append(op)
+        for step, op in enumerate(ops):
             on = op["on"] % len(streams)
             s = streams[on][0]
             kind = op["op"]
@@ -237,4 +256,5 @@ def _short(a, b):
 
 
 def selftest():
-    compile(_module_text(), "<c11>", "exec")
+    compile(_module_text(POOL0), "<c11>", "exec")
+    assert _uniq("lambda e: e.jets().Select(lambda j: j.pt())", "ab") == "lambda e_ab: e_ab.jets().Select(lambda j_ab: j_ab.pt())"
